@@ -79,7 +79,10 @@ type Quiescer struct {
 	Barrier  func() // actor-mailbox barrier (round trip through the manager loops); may be nil
 }
 
-var liveQueues int64
+var liveQueues, queueExits int64
+
+// QueueExits returns how many message-queue run loops have exited so far in this process.
+func QueueExits() int64 { return atomic.LoadInt64(&queueExits) }
 
 // LiveQueues returns the number of message-queue run loops that have started and not yet exited.
 func LiveQueues() int64 { return atomic.LoadInt64(&liveQueues) }
@@ -96,6 +99,7 @@ func init() {
 			atomic.AddInt64(&liveQueues, 1)
 		case "mq.run.exit":
 			atomic.AddInt64(&liveQueues, -1)
+			atomic.AddInt64(&queueExits, 1)
 		}
 		if f, ok := ExtraSink.Load().(func(string, ...any)); ok && f != nil {
 			f(point, kv...)
